@@ -60,7 +60,9 @@ def subharnesses(tier):
     for sname, store in _stores(tier):
         if sname != 'r0_1' and tier == 'quick':
             continue
-        for ev in ([] if tier == 'quick' else EVENTS[1:]):
+        if tier == 'thorough' and sname not in ('r0_1', 'dup', 'ig'):
+            continue
+        for ev in ([] if tier == 'quick' else EVENTS[1:4]):
             spec = dict(store, nservers=2, events=[ev], crash_in='cycle',
                         regime='sym')
             subs.append(('%s-sym-%s-crash_in_cycle' % (sname, '_'.join(
